@@ -23,6 +23,9 @@
 #include "multitensor/params.hpp"
 #include "multitensor/tensor.hpp"
 #include "multitensor/utils.hpp"
+#ifdef MULTITENSOR_VERIF
+#include "multitensor/verif_hooks.hpp"
+#endif
 
 namespace multitensor
 {
@@ -497,6 +500,12 @@ private:
         {
             double L2_old = L2;
             L2 = calculate_likelyhood(u, v, w, A);
+#ifdef MULTITENSOR_VERIF
+            if (verif::hooks().likelihood_computed)
+            {
+                verif::hooks().likelihood_computed(iteration, L2);
+            }
+#endif
             if (std::abs(L2_old - L2)/std::abs(L2_old) < EPS_PRECISION_LIKELIHOOD)
             {
                 coincide++;
@@ -612,6 +621,12 @@ public:
                 initialization::init_tensor_rows_random(v_list, v_temp, random_generator);
             }
             initialization::init_tensor_rows_random(u_list, u_temp, random_generator);
+#ifdef MULTITENSOR_VERIF
+            if (verif::hooks().realization_start)
+            {
+                verif::hooks().realization_start(i, u_temp, directed ? &v_temp : nullptr, w_temp.get_data());
+            }
+#endif
 
             // Likelihood, convergence criteria and iterations
             double L2(std::numeric_limits<double>::lowest());
@@ -637,6 +652,13 @@ public:
                                        u_temp, u_temp, w_temp,
                                        iteration, coincide, L2);
                 }
+#ifdef MULTITENSOR_VERIF
+                if (verif::hooks().iteration_end)
+                {
+                    verif::hooks().iteration_end(i, iteration, u_temp, directed ? &v_temp : nullptr,
+                                                 w_temp.get_data(), L2, coincide, static_cast<int>(term_reason));
+                }
+#endif
             }
             std::cout << "\t... finished after " << iteration << " iterations. "
                       << "Reason: " << get_termination_reason_name(term_reason)
@@ -645,6 +667,9 @@ public:
             // Update report and best configuration
             results.vec_iter.emplace_back(iteration);
             results.vec_term_reason.emplace_back(get_termination_reason_name(term_reason));
+#ifdef MULTITENSOR_VERIF
+            const bool verif_adopted = results.max_L2() < L2;
+#endif
             if (results.max_L2() < L2)
             {
                 std::swap(w, w_temp);
@@ -655,6 +680,12 @@ public:
                 }
             }
             results.vec_L2.emplace_back(L2);
+#ifdef MULTITENSOR_VERIF
+            if (verif::hooks().realization_end)
+            {
+                verif::hooks().realization_end(i, L2, verif_adopted);
+            }
+#endif
         }
 
         // return report
